@@ -410,8 +410,19 @@ func (fr *Frame) binop(x *ssa.BinOp, pc *string, st *State) {
 	}
 	if srt == "String" || srt == "Str" {
 		if srt == "Str" {
-			vc.note("string operator %s abstracted (uninterpreted strings)", x.Op)
-			fr.vals[x] = []string{vc.fresh(fr.prefix+x.Name(), d.sortOf(x.Type()))}
+			d.strUFDecls()
+			switch x.Op {
+			case token.ADD:
+				fr.set(x, x.Type(), fmt.Sprintf("(str.cat %s %s)", a, b))
+			case token.LSS:
+				fr.set(x, x.Type(), fmt.Sprintf("(str.lt %s %s)", a, b))
+			case token.GTR:
+				fr.set(x, x.Type(), fmt.Sprintf("(str.lt %s %s)", b, a))
+			case token.LEQ:
+				fr.set(x, x.Type(), fmt.Sprintf("(or (= %s %s) (str.lt %s %s))", a, b, a, b))
+			case token.GEQ:
+				fr.set(x, x.Type(), fmt.Sprintf("(or (= %s %s) (str.lt %s %s))", a, b, b, a))
+			}
 			return
 		}
 		switch x.Op {
